@@ -338,8 +338,12 @@ func (r *Reporter) Finish() int {
 		"violations":  r.nviol,
 	}
 	b, _ := json.MarshalIndent(ev, "", " ")
-	_ = os.MkdirAll(filepath.Join(r.Dir, "evidence"), 0o755)
-	if err := os.WriteFile(filepath.Join(r.Dir, "evidence", r.Prop+".json"), append(b, '\n'), 0o644); err != nil {
+	evDir := filepath.Join(r.Dir, "evidence")
+	if o := os.Getenv("VERIF_OUT"); o != "" {
+		evDir = filepath.Join(o, "evidence") // mutation experiments must not overwrite the committed evidence
+	}
+	_ = os.MkdirAll(evDir, 0o755)
+	if err := os.WriteFile(filepath.Join(evDir, r.Prop+".json"), append(b, '\n'), 0o644); err != nil {
 		fmt.Fprintln(os.Stderr, "cannot write evidence:", err)
 	}
 	fmt.Printf("%s %s: states=%d transitions=%d validated=%d evaluations=%d nontrivial=%d outcomes=%d known=%d violations=%d exhaustive=%v wall=%.1fs\n",
@@ -372,6 +376,9 @@ func safe(s string) string {
 
 func (r *Reporter) writeReplay(f Finding) string {
 	dir := filepath.Join(r.Dir, "replays", r.Prop)
+	if o := os.Getenv("VERIF_OUT"); o != "" {
+		dir = filepath.Join(o, "replays", r.Prop)
+	}
 	_ = os.MkdirAll(dir, 0o755)
 	base := filepath.Join(dir, safe(f.CellID))
 	rp := f.Replay
